@@ -6,10 +6,13 @@
    Premise: XmiRt.wf_rtb s c (boolean, counted per generated case) = Xmi.wf_inb s c (well-formedness of the input CAS, see
    Props/C04.v) + the schema answers like a TypeSystem (schema_okb, sofa_feat_okb: C10 / C11), defines uima.cas.NULL,
    type names survive the reader's string surgery on "{namespace}tag" (rtname_okb), the CAS has the view _InitialView and
-   every indexed structure with a sofa feature is indexed in the view of its own sofa. *)
+   every indexed structure with a sofa feature is indexed in the view of its own sofa.
+   XmiRtTotal.wf_rt_totalb s c = wf_rtb s c + every structure whose type has the feature sofa holds the sofa of a view (what
+   Cas.add guarantees for indexed structures; DESIGN.md 4.4 "every serialised annotation has a sofa of this CAS"): the premise
+   under which the reader never raises on the writer's output (XmiLoadProofs3 / XmiRtTotalProofs). *)
 From Cassis Require Import Base Offsets.
 From Cassis Require Import Heap Schema Canon Lex LexProofs Reach ReachProofs ReachSpec XmiDoc Xmi XmiProofs XmiWf XmiDocOk
-                           XmiResave XmiLoad XmiRt XmiRtProofs CorrC04 CorrC01 XmiExample.
+                           XmiResave XmiLoad XmiRt XmiRtProofs XmiRtTotal XmiRtTotalProofs CorrC04 CorrC01 XmiExample.
 Open Scope Z_scope.
 
 (* enc_dec_feature_xmi: for every feature declaration and every slot value that is well-typed for it (feat_okb), what the
@@ -51,25 +54,53 @@ Theorem C01_saved_document_is_readable :
 Proof. exact save_reader_ok. Qed.
 Print Assumptions C01_saved_document_is_readable.
 
-(* xmi_roundtrip through the reader mechanism: for every schema and every well-formed CAS, the CAS that the model of
-   CasXmiDeserializer builds from the document the model of CasXmiSerializer wrote has the canonical content of the CAS that
-   was saved (canon_xmi s c = canon_of s c1 (the structures written), C01_canon_is_of_saved_cas): same views and sofa data,
-   same feature structures under the same xmi:ids with the same types, feature values (offsets in code points) and reference
-   targets, same members per view — up to ""/null inside string arrays and lists.
-   PARTIAL in one respect: that the reader succeeds is a hypothesis (load_xmi ... = Ok c2).  Full statement:
-     wf_rtb s c = true -> save_xmi fmt s c = Ok (d, c1) ->
-     exists c2, load_xmi parse s false d = Ok c2 /\ canon_loaded s c2 = (do x <- canon_xmi s c ;; Ok (norm_xmi s x)).
-   The missing half is totality of the reader model on reader_okb documents, which XmiLoadProofs does not provide (its
-   theorems all take load_xmi = Ok as a hypothesis); on every generated case the implementation's reader does succeed and
-   is compared with the denotation (CorrC01.check_load_is_denotation), and the example below evaluates load_xmi to Ok. *)
-Theorem C01_xmi_roundtrip_partial :
+(* Reader totality on writer output.  The document written for a CAS satisfying wf_rt_totalb satisfies, besides reader_okb,
+   the premise total_okb of the reader's totality theorem C05_load_xmi_total: every element has a known type, every attribute
+   is the xmi:id or a declared feature and its value lexes back, every element of a type with the feature sofa carries the id
+   of a sofa, every reference resolves, cas:NULL is there.  Hence the model of CasXmiDeserializer never raises on what the model
+   of CasXmiSerializer emits. *)
+Theorem C01_saved_document_is_total :
+  forall (fmt : flt -> string) s c d c1,
+  wf_rt_totalb s c = true -> save_xmi fmt s c = Ok (d, c1) -> total_okb s d = true.
+Proof. exact save_total_ok. Qed.
+Print Assumptions C01_saved_document_is_total.
+Theorem C01_reader_total_on_saved :
+  forall (fmt : flt -> string) (parse : string -> option flt),
+  (forall x, parse (fmt x) = Some x) -> (forall x, tok_ok (fmt x)) ->
+  forall s c d c1,
+  wf_rt_totalb s c = true -> save_xmi fmt s c = Ok (d, c1) -> exists c2, load_xmi parse s false d = Ok c2.
+Proof. exact reader_total_on_saved. Qed.
+Print Assumptions C01_reader_total_on_saved.
+
+(* xmi_roundtrip through the reader mechanism, unconditional: for every schema and every well-formed CAS, the model of
+   CasXmiDeserializer LOADS the document the model of CasXmiSerializer wrote, and the CAS it builds has the canonical content of
+   the CAS that was saved (canon_xmi s c = canon_of s c1 (the structures written), C01_canon_is_of_saved_cas): same views and
+   sofa data, same feature structures under the same xmi:ids with the same types, feature values (offsets in code points) and
+   reference targets, same members per view - up to ""/null inside string arrays and lists. *)
+Theorem C01_xmi_roundtrip :
+  forall (fmt : flt -> string) (parse : string -> option flt),
+  (forall x, parse (fmt x) = Some x) -> (forall x, tok_ok (fmt x)) ->
+  forall s c d c1,
+  wf_rt_totalb s c = true -> save_xmi fmt s c = Ok (d, c1) ->
+  exists c2, load_xmi parse s false d = Ok c2 /\ canon_loaded s c2 = (do x <- canon_xmi s c ;; Ok (norm_xmi s x)).
+Proof. exact xmi_roundtrip. Qed.
+Print Assumptions C01_xmi_roundtrip.
+(* the conditional form (lemma): under wf_rtb alone, IF the reader loads the document the content is the saved one *)
+Theorem C01_xmi_roundtrip_if_loaded :
   forall (fmt : flt -> string) (parse : string -> option flt),
   (forall x, parse (fmt x) = Some x) -> (forall x, tok_ok (fmt x)) ->
   forall s c d c1 c2,
   wf_rtb s c = true -> save_xmi fmt s c = Ok (d, c1) -> load_xmi parse s false d = Ok c2 ->
   canon_loaded s c2 = (do x <- canon_xmi s c ;; Ok (norm_xmi s x)).
 Proof. exact xmi_roundtrip_load. Qed.
-Print Assumptions C01_xmi_roundtrip_partial.
+Print Assumptions C01_xmi_roundtrip_if_loaded.
+(* wf_rtb alone does not give totality: a referenced-only annotation whose sofa was never set is written without the sofa
+   attribute and the reader raises KeyError (sofas[None]); the document satisfies reader_okb all the same *)
+Theorem C01_reader_total_wf_rtb_refuted : exists (fmt : flt -> string) (parse : string -> option flt) s c d c1,
+  wf_rtb s c = true /\ wf_rt_totalb s c = false /\ save_xmi fmt s c = Ok (d, c1) /\ reader_okb parse s d = true /\
+  load_xmi parse s false d = Err EKey.
+Proof. exact reader_total_wf_rtb_refuted. Qed.
+Print Assumptions C01_reader_total_wf_rtb_refuted.
 Theorem C01_canon_is_of_saved_cas :
   forall s c c1 all, written s c = Ok (c1, all) -> canon_xmi s c = canon_of s c1 (sort_ids all).
 Proof. exact canon_xmi_after. Qed.
@@ -139,14 +170,14 @@ Proof. exact utf8_rt. Qed.
 Print Assumptions C01_utf8_roundtrip.
 
 (* non-vacuity: the example CAS (two views, astral text, a cycle, an inline and a shared FSArray, an empty list, a
-   referenced-only annotation) with the type uima.cas.NULL added to its schema satisfies wf_rtb; the document the model
-   writes satisfies reader_okb, the model reader loads it, and the loaded CAS has the canonical content of the saved one *)
+   referenced-only annotation) with the type uima.cas.NULL added to its schema satisfies wf_rt_totalb; the document the model
+   writes satisfies reader_okb and total_okb, the model reader loads it, and the loaded CAS has the canonical content of the saved one *)
 Definition ex_schema_rt : schema := (ex_schema ++ [mkTi "uima.cas.NULL" ["uima.cas.NULL"; "uima.cas.TOP"] []])%list.
 Example C01_premises_hold :
-  wf_rtb ex_schema_rt ex_cas = true
+  wf_rt_totalb ex_schema_rt ex_cas = true
   /\ (match save_xmi (tab_fmt ex_ftab) ex_schema_rt ex_cas with
       | Ok (d, _) =>
-        reader_okb (tab_parse ex_ftab) ex_schema_rt d &&
+        reader_okb (tab_parse ex_ftab) ex_schema_rt d && total_okb ex_schema_rt d &&
         match load_xmi (tab_parse ex_ftab) ex_schema_rt false d with
         | Ok c2 => match canon_loaded ex_schema_rt c2, canon_xmi ex_schema_rt ex_cas with
                    | Ok x, Ok y => ccas_eqb x (norm_xmi ex_schema_rt y) | _, _ => false end
